@@ -277,6 +277,10 @@ def finish(prop, tier, level, merged, t0, rule, assumptions, coverage_extra=None
         print(f"harness error in {prop}: {len(merged['errors'])} shard(s) failed", file=sys.stderr)
         return 2
 
+    if n.get("merge_mismatches") and not merged["viol_ids"]:
+        print(f"HARNESS-ERROR: state abstraction unsound ({n['merge_mismatches']} merged states behave differently, "
+              f"no violation reported): {merged['extra'].get('merge_mismatch_examples', ['?'])[0]}", file=sys.stderr)
+        return 2
     known = Known(prop)
     per_finding = Counter()
     unknown_ids = []
